@@ -2,11 +2,70 @@
 use super::util::*;
 use crate::case::{Case, Failure, Op};
 use crate::gen;
-use crate::ind;
+use crate::ind::{self, Ind, B};
 use crate::rec::Rec;
+use crate::rng::Rng;
 use crate::runner::{Runner, Tier};
 
+/// the special values of the small alphabets (window sentinels of Minimum/Maximum, NaN, signed zero)
+pub const SPECIALS: &[f64] = &[f64::NAN, f64::INFINITY, f64::NEG_INFINITY, -0.0];
+
+fn long_input(bars: bool, x: f64, i: usize) -> Op {
+    if bars {
+        Op::Bar(B { o: x, h: x + 1.0, l: x - 0.4, c: x + 0.3, v: 10.0 + (i % 5) as f64 })
+    } else {
+        Op::Next(x)
+    }
+}
+
+fn drive(inst: &mut Ind, op: &Op) -> Vec<f64> {
+    match op {
+        Op::Next(x) => inst.next(*x),
+        Op::Bar(b) => inst.next_bar(b),
+        _ => vec![],
+    }
+}
+
+/// kind reset-long: extra = [seed, history length, continuation length, spike position, spike value].
+/// Both streams are regenerated from the seed (up to 2^24 inputs are not stored in the replay file); the
+/// instances are driven directly (not through the recorder: nothing of this is logged for the model replay).
+fn check_long(case: &Case) -> Option<Failure> {
+    let seed = case.extra[0] as u64;
+    let hl = case.extra[1] as usize;
+    let cl = case.extra[2] as usize;
+    let spike_at = case.extra[3] as usize;
+    let spike = case.extra[4];
+    let mut rng = Rng::new(seed);
+    let mut a = Ind::create(&case.ind, &case.ps, &case.ms).unwrap().unwrap();
+    let bars = !a.has_next();
+    // history: ordinary prices around 100 with rare huge / non-finite ticks (reset has to wipe all of it)
+    for i in 0..hl {
+        let u = rng.unit();
+        let x = if u < 0.0005 {
+            *rng.pick(&[1e17, -1e17, f64::NAN, f64::INFINITY, f64::NEG_INFINITY, 1e-300])
+        } else {
+            100.0 + (rng.unit() - 0.5) * 20.0
+        };
+        drive(&mut a, &long_input(bars, x, i));
+    }
+    a.reset();
+    let mut b = Ind::create(&case.ind, &case.ps, &case.ms).unwrap().unwrap();
+    for t in 0..cl {
+        let x = if t == spike_at { spike } else { 100.0 + (rng.unit() - 0.5) * 20.0 };
+        let op = long_input(bars, x, t);
+        let got = drive(&mut a, &op);
+        let want = drive(&mut b, &op);
+        if !all_close(&got, &want, 1e-12) {
+            return fail(case, "differs-from-fresh", format!("history of {} inputs, reset, continuation input #{} ({:?}; one {:e} tick at #{}): after reset gives {:?}, fresh instance gives {:?}", hl, t, op, spike, spike_at, got, want));
+        }
+    }
+    None
+}
+
 pub fn check(case: &Case, rec: &mut Rec) -> Option<Failure> {
+    if case.kind == "reset-long" {
+        return check_long(case);
+    }
     let a = match mk(case, rec) {
         Ok(i) => i,
         Err(f) => return Some(f),
@@ -86,11 +145,13 @@ pub fn history(r: &mut Runner, ind: &str, len: usize, weird_p: f64, scale: f64) 
 }
 
 pub fn generate(r: &mut Runner) {
-    // stage 1: exhaustive small scope — periods 1..=4 (single-period indicators), alphabet incl. NaN and +inf,
-    // all histories up to depth d followed by a fixed discriminating continuation
-    let a: &[f64] = &[1.0, 3.0, -2.0, f64::NAN, f64::INFINITY];
+    // stage 1: exhaustive small scope — periods 1..=4 (single-period indicators), alphabet incl. NaN, BOTH infinities
+    // (the window sentinels of Maximum and Minimum) and -0.0, all histories up to depth d, each followed by a
+    // discriminating continuation whose first input is finite / NaN / +inf / -inf
+    let a: &[f64] = &[1.0, 3.0, -2.0, f64::NAN, f64::INFINITY, f64::NEG_INFINITY, -0.0];
+    let heads: &[Option<f64>] = &[None, Some(f64::NAN), Some(f64::INFINITY), Some(f64::NEG_INFINITY)];
     let depth = if r.tier == Tier::Quick { 3 } else { 5 };
-    r.log_every = 41;
+    r.log_every = if r.tier == Tier::Quick { 401 } else { 4001 };
     for name in ind::NAMES {
         let (np, nm) = ind::arity(name).unwrap();
         let bars_only = !ind::has_next_name(name);
@@ -103,24 +164,32 @@ pub fn generate(r: &mut Runner) {
         for ps in period_sets {
             let maxp = ps.iter().copied().max().unwrap_or(1);
             for d in 0..=depth {
+                // all four continuation heads up to depth 3; {finite, NaN} at depth 4; one (rotating) at depth 5
+                let nheads = if d <= 3 { 4 } else if d == 4 { 2 } else { 1 };
                 for code in 0..a.len().pow(d as u32) {
-                    let ms: Vec<f64> = (0..nm).map(|_| 2.0).collect();
-                    let mut c = Case::new("C04", "reset-exhaustive", name, &ps, &ms);
-                    let mut k = code;
-                    for _ in 0..d {
-                        let x = a[k % a.len()];
-                        k /= a.len();
-                        c.ops.push(if bars_only { Op::Bar(crate::ind::B { o: x, h: x + 1.0, l: x - 1.0, c: x, v: 10.0 }) } else { Op::Next(x) });
+                    for hk in 0..nheads {
+                        let head = if nheads == 1 { heads[code % 4] } else { heads[hk] };
+                        let ms: Vec<f64> = (0..nm).map(|_| 2.0).collect();
+                        let mut c = Case::new("C04", "reset-exhaustive", name, &ps, &ms);
+                        let mut k = code;
+                        for _ in 0..d {
+                            let x = a[k % a.len()];
+                            k /= a.len();
+                            c.ops.push(if bars_only { Op::Bar(B { o: x, h: x + 1.0, l: x - 1.0, c: x, v: 10.0 }) } else { Op::Next(x) });
+                        }
+                        c.ops.push(Op::Mark);
+                        // continuation: n+3 *different* values, the first one replaced by the head
+                        let cont_len = maxp + 3;
+                        for j in 0..cont_len {
+                            let x = match (j, head) {
+                                (0, Some(h)) => h,
+                                _ => 5.0 + (j as f64) * 1.5 * if j % 2 == 0 { 1.0 } else { -1.0 },
+                            };
+                            c.ops.push(if bars_only { Op::Bar(B { o: x, h: x + 2.0, l: x - 0.5, c: x + 0.25, v: 7.0 + j as f64 }) } else { Op::Next(x) });
+                        }
+                        let nt = d > maxp; // history wrapped the window before the reset
+                        r.run(c, nt);
                     }
-                    c.ops.push(Op::Mark);
-                    // continuation: n+3 *different* values incl. a NaN early and late
-                    let cont_len = maxp + 3;
-                    for j in 0..cont_len {
-                        let x = if j == 0 && code % 2 == 1 { f64::NAN } else { 5.0 + (j as f64) * 1.5 * if j % 2 == 0 { 1.0 } else { -1.0 } };
-                        c.ops.push(if bars_only { Op::Bar(crate::ind::B { o: x, h: x + 2.0, l: x - 0.5, c: x + 0.25, v: 7.0 + j as f64 }) } else { Op::Next(x) });
-                    }
-                    let nt = d > maxp; // history wrapped the window before the reset
-                    r.run(c, nt);
                 }
             }
         }
@@ -137,14 +206,66 @@ pub fn generate(r: &mut Runner) {
         let scale = *r.rng.pick(&[1.0, 100.0, 1e6]);
         let mut c = Case::new("C04", "reset-random", name, &ps, &ms);
         c.ops = history(r, name, hl, weird_p, scale);
+        // a third of the histories END in a run of special values (1..=n+2 inputs, one dominant value from
+        // {NaN,+inf,-inf,-0.0} with a few others mixed in): the whole window is sentinel-like at the reset
+        if r.rng.chance(0.33) {
+            let k = r.rng.range(1, maxp + 2);
+            let dom = *r.rng.pick(SPECIALS);
+            let bars = !ind::has_next_name(name) || c.ops.iter().any(|o| matches!(o, Op::Bar(_)));
+            for _ in 0..k {
+                let x = if r.rng.chance(0.8) { dom } else { *r.rng.pick(SPECIALS) };
+                c.ops.push(if bars { Op::Bar(B { o: x, h: x, l: x, c: x, v: 10.0 }) } else { Op::Next(x) });
+            }
+        }
         c.ops.push(Op::Mark);
         let wp2 = if r.rng.chance(0.25) { 0.1 } else { 0.0 };
         let cl = maxp + 2 + r.rng.below(8);
-        let cont = history(r, name, cl, wp2, scale);
-        c.ops.extend(cont.into_iter().filter(|o| *o != Op::Reset));
+        let mut cont: Vec<Op> = history(r, name, cl, wp2, scale).into_iter().filter(|o| *o != Op::Reset).collect();
+        // a third of the continuations START with a special value
+        if r.rng.chance(0.33) {
+            let x = *r.rng.pick(SPECIALS);
+            cont[0] = match cont[0] {
+                Op::Bar(b) => Op::Bar(if r.rng.chance(0.5) { B { h: x, ..b } } else { B { o: x, h: x, l: x, c: x, v: b.v } }),
+                _ => Op::Next(x),
+            };
+        }
+        c.ops.extend(cont);
         let nt = hl > maxp;
         r.run(c, nt);
     }
+    // stage 3: LONG histories before the reset and long continuations: state that reset() forgets to clear may only be
+    // consulted every 2^k calls (call counters, periodic re-synchronisation of running sums, …), and what it
+    // does then is only visible on an ill-conditioned window: one 1e17 / 1e18 tick in the continuation leaves a
+    // rounding residue in every incremental sum. History lengths straddle 2^12, 2^16, 2^20 (thorough: 2^24).
+    r.log_every = u64::MAX;
+    let rounds = if r.tier == Tier::Quick { 1 } else { 3 };
+    for _ in 0..rounds {
+        for name in ind::NAMES {
+            let cl = if r.tier == Tier::Quick { 70_000usize } else { 140_000 };
+            let mut hls: Vec<usize> = vec![
+                65_530,
+                (1 << 16) - r.rng.range(1, 60_000),
+                (1 << 16) + r.rng.range(0, 5_000),
+                (1 << 20) - r.rng.range(1, 60_000),
+                (1 << 12) - r.rng.range(1, 4_000),
+                r.rng.range(1, 200_000),
+            ];
+            if r.tier == Tier::Thorough {
+                hls.push((1 << 20) + r.rng.range(0, 5_000));
+                hls.push((1 << 24) - r.rng.range(1, 120_000));
+            }
+            for hl in hls {
+                let (ps, ms) = crate::diff::params_for(&mut r.rng, name, 64);
+                let maxp = ps.iter().copied().max().unwrap_or(1);
+                let mut c = Case::new("C04", "reset-long", name, &ps, &ms);
+                let spike_at = r.rng.below(cl - maxp - 100);
+                let spike = *r.rng.pick(&[1e17, 1e18]);
+                c.extra = vec![(r.rng.u64() % (1 << 50)) as f64, hl as f64, cl as f64, spike_at as f64, spike];
+                r.steps += (hl + cl) as u64;
+                r.run(c, true);
+            }
+        }
+    }
 }
 
-pub const RULE: &str = "stage 1: for all 22 indicators and periods 1..=4, every history of length 0..=d over {1,3,-2,NaN,+inf} followed by reset and a continuation of n+3 distinct values (starting with NaN for half of them), compared against a fresh instance, a twice-reset instance and a fresh-then-reset instance; stage 2: random deep histories (several regimes, 3% non-finite inputs, interior resets), random periods, continuation >= n+2 inputs (10% non-finite for a quarter of them). Non-trivial = the history before the reset is longer than the largest period (window filled / wrapped). Comparison: 1e-12 relative (NaN = NaN).";
+pub const RULE: &str = "stage 1: for all 22 indicators and periods 1..=4, every history of length 0..=d (d = 3 quick / 5 thorough) over {1,3,-2,NaN,+inf,-inf,-0.0} followed by reset and a continuation of n+3 distinct values whose first input is, in turn, finite / NaN / +inf / -inf (all four up to depth 3, {finite,NaN} at depth 4, one rotating head at depth 5), compared against a fresh instance, a twice-reset instance and a fresh-then-reset instance; stage 2: random deep histories (several regimes, 3% non-finite inputs, interior resets; a third of them END in a run of 1..=n+2 special values from {NaN,+inf,-inf,-0.0}, one of them dominant, so that the whole window is sentinel-like at the reset), random periods, continuation >= n+2 inputs (10% non-finite for a quarter of them; a third START with a special value); stage 3 (kind reset-long, streams regenerated from a seed in extra): all 22 indicators, periods to 64, histories of 65530, 2^16-k, 2^16+k, 2^20-k, 2^12-k and a random number (<= 200000) of inputs (thorough: also 2^20+k, 2^24-k; k random) with rare 1e17 / non-finite ticks, reset, then a continuation of 70000 (thorough 140000) ordinary prices containing ONE 1e17 or 1e18 tick at a random position, compared with a fresh instance at every step (so that the total number of calls across the reset crosses 2^16 / 2^20 on an ill-conditioned window). Non-trivial = the history before the reset is longer than the largest period (window filled / wrapped). Comparison: 1e-12 relative (NaN = NaN).";
